@@ -1,6 +1,7 @@
 //! Implementation-side runner of the correspondence check.
 //! usage: h <mode> < cases > observations
 mod common;
+mod m_adapt;
 mod m_diff;
 
 use std::io::{BufRead, Write};
@@ -10,6 +11,7 @@ fn main() {
     let mode = std::env::args().nth(1).expect("mode");
     let f: fn(&str, &mut String) = match mode.as_str() {
         "diff" => m_diff::run_line,
+        "adapt" => m_adapt::run_line,
         _ => {
             eprintln!("unknown mode {mode}");
             std::process::exit(2)
